@@ -109,7 +109,7 @@ pub fn worker(cases: &str, results: &str, start: usize) -> i32 {
                 Ok(v) => v,
                 Err(e) => { writeln!(out, "{}", json!({"i": i, "ok": [], "bad": [{"prop": "TOOL", "ok": false, "kind": "bad-json", "detail": e.to_string()}]})).unwrap(); continue; }
             };
-            allowance.store(match case["t"].as_str().unwrap_or("") { "timer" => 300, "session" => 60,
+            allowance.store(match case["t"].as_str().unwrap_or("") { "timer" => 300, "session" => 60, "repl" => 150,
                                                                      t if t.starts_with("syn-") && t != "syn-family" && t != "syn-seed" => 6,
                                                                      _ => CASE_TIMEOUT_S as usize }, Ordering::SeqCst);
             writeln!(out, "{}", json!({"begin": crate::props_of(&case), "i": i})).unwrap();
